@@ -121,14 +121,6 @@ fn pf_body(n: usize, trunc: Option<usize>, push: bool) {
     assert!(len1 == match trunc { Some(t) if t < n => t, _ => n });
     let p = any_page();
     if push {
-        let wrong = kani::any::<bool>();
-        if wrong {
-            let idx: usize = kani::any();
-            kani::assume(idx != len1);
-            let r = pages.checked_push(idx, p);
-            assert!(r.is_err() && pages.len() == len1, "push at a wrong index must be refused with no effect");
-            core::mem::forget(r);
-        }
         let r = pages.checked_push(len1, p);
         assert!(r.is_ok() && pages.len() == len1 + 1);
         core::mem::forget(r);
@@ -163,6 +155,29 @@ macro_rules! pf {
         }
     };
 }
+/// checked_push at any index other than the current length is refused with no effect.
+#[kani::proof]
+#[kani::unwind(6)]
+#[kani::stub(alloc::fmt::format, stubs::format_stub)]
+#[kani::stub(rawdb::Database::sync_bg_tasks, rawdb::verif_root::sync_bg_tasks_stub)]
+#[kani::stub(<[u8]>::to_vec, stubs::to_vec_stub)]
+fn c07_pages_push_wrong_index() {
+    let mut buf: Box<[u8; CAPB]> = Box::new(kani::any());
+    let mut vec: Vec<Page> = Vec::with_capacity(64);
+    let (s0, b0, v0) = page_at(&buf, 0);
+    unsafe {
+        vec.as_mut_ptr().write(Page { start: s0, bytes: b0, values: v0 });
+        vec.set_len(1);
+    }
+    let (db, region) = rawdb::verif_root::api_contract_db(buf.as_mut_ptr(), CAPB, 16);
+    let mut pages = Pages { region, vec, change_at: None };
+    let idx: usize = kani::any();
+    kani::assume(idx != 1);
+    let r = pages.checked_push(idx, any_page());
+    assert!(r.is_err() && pages.len() == 1 && pages.change_at.is_none(), "push at a wrong index must be refused with no effect");
+    kani::cover!(true, "refused");
+    core::mem::forget((r, pages, db, buf));
+}
 pf!(c07_pf_n0_push, 0, None, true);
 pf!(c07_pf_n0_t0, 0, Some(0), false);
 pf!(c07_pf_n1_push, 1, None, true);
@@ -177,7 +192,10 @@ pf!(c07_pf_n2_none, 2, None, false);
 
 /// Index arithmetic at the real page capacity: next_start / stored_len / Page::end
 #[kani::proof]
-#[kani::unwind(4)]
+#[kani::unwind(6)]
+#[kani::stub(alloc::fmt::format, stubs::format_stub)]
+#[kani::stub(rawdb::Database::sync_bg_tasks, rawdb::verif_root::sync_bg_tasks_stub)]
+#[kani::stub(<[u8]>::to_vec, stubs::to_vec_stub)]
 fn c07_pages_arithmetic() {
     let a = any_page();
     let b = any_page();
